@@ -157,6 +157,9 @@ class var_induct(Tactic):
         inst = matcher.first_order_match(th_args[0], var)
         inst[f.name] = P
         As, _ = th.prop.subst_norm(inst).strip_implies()
+        # If the goal is itself an implication, the instantiated conclusion
+        # contributes further antecedents: keep only the induction cases.
+        As = As[:len(th.assums)]
         pts = [ProofTerm.sorry(Thm(A, goal.hyps)) for A in As]
         return ProofTerm("apply_induct", (th_name, var, goal.prop), pts)
 
